@@ -111,7 +111,8 @@ fn names_from_set_expr<'a>(set_expr: &'a ast::SetExpr) -> Vec<&'a ast::ObjectNam
             .into_iter()
             .chain(names_from_set_expr(right.as_ref()))
             .collect(),
-        _ => todo!(),
+        // No table name to collect: the relation builder refuses these bodies with an error
+        _ => vec![],
     }
 }
 
